@@ -1,6 +1,6 @@
 """C19 — conversion to and from serde_json preserves the document."""
 from .. import gen
-from . import common
+from . import common, sizes
 from .C03 import strict_parse
 
 SPEC_THEOREM = ('Props/C19: serde_to_value (value_to_serde v) is value-equal to v for finite v; object-only variant agrees; '
@@ -26,6 +26,8 @@ def serde_form(v):
 def generate(ctx):
     ds = common.docs(ctx, ctx.scale(500, 20000), finite=True)
     ds += [('i', x) for x in gen.INT_POOL] + [('u', x) for x in gen.UINT_POOL] + [('d', x) for x in gen.FLOAT_POOL]
+    # strings / keys of 255 .. 65536 bytes, containers of 255 .. 1000 members (sizes.py; second review H2)
+    ds += [v for _, v in sizes.string_docs() + sizes.container_docs()]
     ctx.trials = []
     for v in ds:
         e = gen.hexarg(gen.enc(v))
